@@ -1007,6 +1007,12 @@ def _parse(
             continue
 
         elif operator in ("apply", "block", "try", "if", "for", "while"):
+            # Report a missing name at the tag itself rather than at the
+            # line of the matching {% end %}.
+            if operator == "apply" and not suffix:
+                reader.raise_parse_error("apply missing method name")
+            if operator == "block" and not suffix:
+                reader.raise_parse_error("block missing name")
             # parse inner body recursively
             if operator in ("for", "while"):
                 block_body = _parse(reader, template, operator, operator)
@@ -1018,12 +1024,8 @@ def _parse(
                 block_body = _parse(reader, template, operator, in_loop)
 
             if operator == "apply":
-                if not suffix:
-                    reader.raise_parse_error("apply missing method name")
                 block = _ApplyBlock(suffix, line, block_body)
             elif operator == "block":
-                if not suffix:
-                    reader.raise_parse_error("block missing name")
                 block = _NamedBlock(suffix, block_body, template, line)
             else:
                 block = _ControlBlock(contents, line, block_body)
